@@ -11,7 +11,7 @@ def build_all(prop, P):
     bins = []
     for b in P["binaries"]:
         bins.append(D.build(b["name"], b["sources"], b.get("libs", []), b.get("flavour", "asan"),
-                            b.get("extra_flags", ()), b.get("link_flags", ()), b.get("hook_libs", ())))
+                            b.get("extra_flags", ()), b.get("link_flags", ()), b.get("hook_libs", ()), b.get("hook_sources", ())))
     return bins
 
 
@@ -112,6 +112,10 @@ def run(prop, P, tier, seed, replay, extra):
         return 2
 
     n_unlisted, n_known = D.judge(prop, all_viol, {"tier": tier})
+    if build_failure is not None:
+        # nothing ran: there is no coverage to describe; the verdict is the failing compile probe(s)
+        print("%s: harness binaries did not build against this tree; %d compile probe violation(s) unlisted, %d known" % (prop, n_unlisted, n_known))
+        return 1 if n_unlisted else 2
 
     samples = tot["samples"]
     if len(samples) > 16:
